@@ -16,7 +16,7 @@ def run(chk):
     r = random.Random(chk.seed)
     # the input pool: generated programs (macros, includes, loops), erroneous inputs, and near-duplicates that differ only in
     # where a macro definition stands (same macro text at another line / in another file)
-    npool = 40 if chk.thorough else 16
+    npool = 60 if chk.thorough else 16
     progs = sem.generate(chk.seed + 180, npool, canon=False)
     pool = [{"files": p["files"], "main": p["main"]} for p in progs]
     base = 'include "lib"\nREPEAT 2 TIMES x := x + 1 END; y := x\n'
@@ -67,7 +67,7 @@ def run(chk):
     with open(rp, "w") as f:
         json.dump(ref, f)
     okprogs = vm.compile_progs_lenient(th, [("pool%d" % k, x) for k, x in enumerate(pool)])
-    rounds = 6 if chk.thorough else 3
+    rounds = 25 if chk.thorough else 3
     nevents = 0
     nacc = 0
     for rnd in range(rounds):
